@@ -34,7 +34,7 @@ fn shape_len(shape: usize, first: usize, follow: usize) -> usize {
 }
 
 /// The same send at the platform level: data + 2 channel descriptors + 1 region, exact lists compared.
-fn platform_run(len: usize, nchan: usize, out: &mut Outcome) -> Outcome {
+fn platform_run(len: usize, nchan: usize, base_fds: Option<Vec<i32>>, out: &mut Outcome) -> Outcome {
     use ipc_channel::platform::{self, OsIpcChannel, OsIpcSharedMemory};
     let (tx, rx) = platform::channel().unwrap();
     let region_bytes: Vec<u8> = (0..5000u32).map(|i| (i * 7 + 3) as u8).collect();
@@ -127,6 +127,12 @@ fn platform_run(len: usize, nchan: usize, out: &mut Outcome) -> Outcome {
     if st.p_trunc > 0 || st.p_ctrunc > 0 {
         out.viol("oversized-retry:send", format!("a transmitted packet did not fit the buffer the receiver offers (MSG_TRUNC {} / MSG_CTRUNC {})", st.p_trunc, st.p_ctrunc));
     }
+    if let (Some(base), true) = (&base_fds, blocked.is_empty()) {
+        let extra = super::util::fds_beyond(base);
+        if !extra.is_empty() {
+            out.viol("descriptor-leak:end", format!("platform level: {} descriptor(s) remain open after the send ({} refusals fired, {}) and every handle was dropped: {}", extra.len(), fired, if ok.is_some() { "Ok" } else { "Err" }, extra.join(", ")));
+        }
+    }
     for pn in hist::panics() {
         out.viol(&hist::panic_sig(pn), format!("panic in [{}]: {} at {}", pn.label, pn.msg, pn.loc));
     }
@@ -205,6 +211,8 @@ impl Scenario for C13S {
         start_sim(p);
         let len = p["len"].as_u64().unwrap_or(100).min(1 << 20) as usize;
         let with_att = p["att"].as_bool().unwrap_or(false);
+        let noise = p["noise"].as_bool().unwrap_or(false);
+        let base_fds = super::util::fd_baseline();
         if p["noise"].as_bool().unwrap_or(false) {
             // another thread of the program opens and closes descriptors all the while: a retry that
             // names a descriptor number it no longer owns picks up one of these
@@ -225,7 +233,7 @@ impl Scenario for C13S {
             });
         }
         if p["platform"].as_bool().unwrap_or(false) {
-            return platform_run(len, p["nchan"].as_u64().unwrap_or(2).min(80) as usize, &mut out);
+            return platform_run(len, p["nchan"].as_u64().unwrap_or(2).min(80) as usize, if noise { None } else { Some(base_fds) }, &mut out);
         }
         let (tx, rx) = ipc::channel::<M13>().unwrap();
         let mut sides: Vec<IpcReceiver<u32>> = vec![];
@@ -366,6 +374,12 @@ impl Scenario for C13S {
             let stray = sim::open_received_fds();
             if !stray.is_empty() {
                 out.viol("stray-descriptor:recv", format!("{} descriptor(s) arrived with the message that no part of the value refers to and that nothing closes (ledger ids {:?}); send ok: {}", stray.len(), stray, send_ok));
+            }
+        }
+        if !noise && blocked.is_empty() {
+            let extra = super::util::fds_beyond(&base_fds);
+            if !extra.is_empty() {
+                out.viol("descriptor-leak:end", format!("{} descriptor(s) remain open after the send ({} refusals fired, {}) and every handle was dropped: {}", extra.len(), fired, if send_ok { "Ok" } else { "Err" }, extra.join(", ")));
             }
         }
         for pn in hist::panics() {
